@@ -387,3 +387,19 @@ package st
 //@   opt: count-calls=visit
 //@   modifies *
 //@   loop 0 iteration [must-fail-skips] callcount("visit") >= loopold(callcount("visit")) + 1
+//@ func (*Pending).MarksOnly
+//@   props: S01
+//@   level: PA
+//@   nosafe
+//@   opt: only=grow-only
+//@   opt: grow-only=gone
+//@   requires p != nil
+//@   modifies *
+//@ func (*Pending).Unmarks
+//@   props: S01
+//@   level: PA
+//@   nosafe
+//@   opt: only=grow-only
+//@   opt: grow-only=gone
+//@   requires p != nil
+//@   modifies *
